@@ -119,11 +119,31 @@ Definition check_weight (rel tiny : Q) (bg : list F32.t) (fq wm : list (list F32
                            && forallb (fun b => b) (map3 (check_weight_cell rel tiny) fr bg wr)) fq wm).
 
 (* rescale: the result is the weight matrix for the new background wherever the old
-   background was not 0, and 0 wherever the new background is 0 *)
+   background was not 0, and 0 wherever the new background is 0.
+
+   Tolerance = a function of the three binary32 operations the code performs,
+     x = RN(f / old),  q = RN(old / new),  w = RN(x * q),
+   in the standard model RN(z) = z (1 + d) + e with |d| <= 2^-24, |e| <= 2^-150
+   (e <> 0 only when the result is subnormal):
+     |w * new - f| <= ((1+2^-24)^3 - 1) |f|            (three roundings)
+                      + |x| * new * 2^-150 (1+2^-24)   (gradual underflow of q = old/new)
+                      + (old + new) * 2^-150 (1+..)    (underflow of x and of w)
+   With [rel] >= 2^-22 and [tiny] >= 2^-148 the bound below dominates it.  The second
+   term matters only when old/new < 2^-126 (a subnormal old background, e.g. the
+   smallest denormal 2^-149, which Background::new accepts): there q keeps fewer than
+   24 significant bits, and the relative error of the result is bounded by
+   2^-149 * new / old instead of 2^-22.  For old/new >= 2^-126 that term is <= 2^-23 |f|. *)
+Definition rescale_tol (rel tiny qf qo qn : Q) : Q :=
+  rel * Qabs qf + (Qabs qf / Qabs qo) * Qabs qn * (1 # (Pos.pow 2 149)) + tiny.
+
 Definition check_rescale_cell (rel tiny : Q) (f old new w : F32.t) : bool :=
   if F32.eq new F32.zero then F32.eq w F32.zero
   else if F32.eq old F32.zero then true
-  else check_weight_cell rel tiny f new w.
+  else match f32_to_Q f, f32_to_Q old, f32_to_Q new, f32_to_Q w with
+       | Some qf, Some qo, Some qn, Some qw =>
+           Qleb (Qabs (qw * qn - qf)) (rescale_tol rel tiny qf qo qn)
+       | _, _, _, _ => true
+       end.
 
 Fixpoint map4 {A B C D E : Type} (f : A -> B -> C -> D -> E) (l1 : list A) (l2 : list B)
   (l3 : list C) (l4 : list D) : list E :=
